@@ -335,7 +335,7 @@ def _mentions(text, rp):
     import re
 
     tok = re.compile(r"(^|\s)" + re.escape(rp) + r"(\s|$)")
-    for line in text.splitlines():
+    for line in text.split("\n"):
         if "directory hash" in line or "content hash" in line or "structure hash" in line:
             continue
         if line.strip() == rp or (tok.search(line) and ("found new file" in line or "hash mismatch" in line)):
